@@ -465,6 +465,7 @@ def mcp_renderings(ctx, specs, code_r):
             elif conv.rstrip("\n") != dsl.rstrip("\n"): bad = "convert_to_dsl of the JSON rendering is not the DSL rendering: %r vs %r" % (conv[:200], dsl[:200])
             elif json.loads(pj) != json.loads(js): bad = "parse_transactions of the JSON rendering changes the transactions"
             elif strip_zero_labels(json.loads(pd)) != strip_zero_labels(json.loads(js)): bad = "parse_transactions of the DSL rendering differs from the JSON rendering"
+            elif rr.get("report_orig") is None: pass     # arbitrary dates and currencies: a rate may be missing for a zero fee whose label the DSL drops (the property's own exception); reports are compared on the cases built for it
             elif (e4 is None) != (e5 is None): bad = "calculate_report answers one rendering and refuses the other: JSON %s, DSL %s" % (e4, e5)
             elif e4 is None and json.loads(cj) != json.loads(cd): bad = "calculate_report differs between the JSON and the DSL rendering"
             if bad:
